@@ -589,6 +589,64 @@ func currentCmd(name string) *fakecmd.Cmd {
 
 func probingStatus(s string) bool { return s == "Running" || s == "Launching" || s == "Launched" }
 
+// IntJ: one INTEGRATED scenario - the unmodified prober (1 s period) drives the unmodified process: a readiness probe
+// that fails for ever, restart policy always.  Every run of failure_threshold consecutive failures since the last
+// (re)launch must stop and relaunch the process again (the stop winds the prober down, the relaunch starts it afresh).
+type IntJ struct {
+	Name      string  `json:"name"`
+	Threshold int     `json:"threshold"`
+	Seconds   float64 `json:"seconds"`
+	Launches  int     `json:"launches"`
+	MinExpect int     `json:"min_expected"`
+	Restarts  int64   `json:"restarts"`
+	Status    string  `json:"status"`
+	Note      string  `json:"note,omitempty"`
+}
+
+func runIntegrated(tmp string, idx int, thr int, dur time.Duration) *IntJ {
+	name := fmt.Sprintf("intproc%d", idx)
+	res := &IntJ{Name: name, Threshold: thr}
+	stopCodes.Store(name, -1)
+	probe := map[string]interface{}{"exec": map[string]interface{}{"command": "test -f " + filepath.Join(tmp, "never-there-"+name)},
+		"initial_delay_seconds": 0, "period_seconds": 1, "timeout_seconds": 1, "failure_threshold": thr}
+	proc := map[string]interface{}{"command": "fake-" + name, "readiness_probe": probe,
+		"availability": map[string]interface{}{"restart": "always", "backoff_seconds": 1}}
+	doc := map[string]interface{}{"version": "0.5", "processes": map[string]interface{}{name: proc}}
+	data, _ := yaml.Marshal(doc)
+	dir := filepath.Join(tmp, fmt.Sprintf("i%d", idx))
+	_ = os.MkdirAll(dir, 0o755)
+	file := filepath.Join(dir, "pc.yaml")
+	_ = os.WriteFile(file, data, 0o644)
+	lo := &loader.LoaderOptions{FileNames: []string{file}, IsInternalLoader: true}
+	lo.DisableDotenv(true)
+	prj, err := loader.Load(lo)
+	if err != nil {
+		res.Note = "load: " + err.Error()
+		return res
+	}
+	opts := (&app.ProjectOpts{}).WithProject(prj).WithIsTuiOn(true)
+	opts.WithDotEnvDisabled(true)
+	runner, err := app.NewProjectRunner(opts)
+	if err != nil {
+		res.Note = "runner: " + err.Error()
+		return res
+	}
+	t0 := time.Now()
+	go func() { _ = runner.Run() }()
+	time.Sleep(dur)
+	o := observe(runner, name)
+	res.Seconds = time.Since(t0).Seconds()
+	res.Launches, res.Restarts, res.Status = int(o.Launches), o.Restarts, o.Status
+	// one cycle takes about thr seconds (+ back-off 3 ms through the seam); expect at least the cycles that fit into
+	// 60% of the time, and never fewer than two relaunches
+	res.MinExpect = 1 + int(0.6*dur.Seconds())/thr
+	if res.MinExpect < 3 {
+		res.MinExpect = 3
+	}
+	_ = runner.ShutDownProject()
+	return res
+}
+
 func runH(c *Case, tmp string, idx int, slow bool) {
 	name := fmt.Sprintf("proc%d", idx)
 	win, max := 40*time.Millisecond, 2500*time.Millisecond
@@ -979,6 +1037,21 @@ func main() {
 			runP(c, tmp, i)
 		}(i, c)
 	}
+	// integrated prober + process scenarios, in real time as well
+	var ints []*IntJ
+	var imu sync.Mutex
+	if *replay == "" {
+		for k, thr := range []int{1, 2, 3} {
+			wg.Add(1)
+			go func(k, thr int) {
+				defer wg.Done()
+				r := runIntegrated(tmp, k, thr, time.Duration(4+3*thr)*time.Second)
+				imu.Lock()
+				ints = append(ints, r)
+				imu.Unlock()
+			}(k, thr)
+		}
+	}
 	// process scenarios: a pool of workers, meanwhile
 	workers := 12
 	if *slow {
@@ -1081,6 +1154,7 @@ func main() {
 			}
 		}
 	}
+	stats["integrated"] = ints
 	stats["kinds"] = kinds
 	stats["p_results"], stats["p_callbacks"], stats["p_fatal"] = nres, ncb, nfatal
 	stats["h_ops"], stats["h_ops_delivered"], stats["h_delivered_by_kind"] = nops, ndel, opk
